@@ -27,6 +27,18 @@ Oracle 2 (lock step with MuJoCo C): the awake sets may differ only in runs of <=
   not comparable (counted as desync, oracle 1 continues).
 Second family (schedules): the same traces with the task order of the waking / sleep bookkeeping kernels reversed or
   rotated (mc.world.LaunchHook); integer sleep observables must equal the ascending run exactly.
+Two-source family (`twosrc`, `sched2`; scenes `row`, `row_eq`, `row_ten`: A - B - C floating in a row, no gravity, soft
+  contacts, B is the sleeper): at step T2 the sleeping B is reached IN ONE STEP by an almost-asleep tree (woken by a tiny
+  kick GAP = 1..9 steps earlier, countdown -10..-2; it is teleported into contact with B) and by a freshly woken tree
+  (velocity kick in the same step, countdown -11) through a contact (touching for this step only / staying), an
+  equality that becomes active, or a tendon limit that becomes active; both body orders (A slow / C slow), i.e. both
+  contact orders.  Oracles: lock step with MuJoCo C (awake sets by the rules above AND the countdown of a tree that both
+  engines wake in the same step may differ by at most 2), monitor (after the step the woken tree's countdown is at most
+  the countdown its contact / tendon sources had when the step began, + 1: it cannot fall asleep before its most awake
+  waker), schedules (descending / rotated order of the wake kernels must give the same tree_asleep VALUES at every step).
+Chain family (`chain`): the same scenes when the slow tree is asleep (again) at T2 (GAP 10..12, or never kicked): the
+  freshly woken tree reaches it only through the middle sleeper (three trees in three sleep cycles).  MuJoCo C wakes the
+  whole chain in one step; see /verif/candidates/C29.md (vkey monitor:wake:chain_of_sleepers:*).
 """
 
 import itertools
@@ -43,10 +55,11 @@ RULE = (
   "rest and lets everything fall asleep; one scenario = (scene, first event, its step) and all second events after it (one world "
   "each); state = (tree_asleep vector, monitor quiet counters saturated, pending event), transition = one step of one trace; every "
   "trace is validated lock-step against MuJoCo C; non-trivial = some tree fell asleep AND some sleeping tree was woken in the trace "
-  "batch; distinct = (scene, jacobian, first event, step, schedule)"
+  "batch; distinct = (scene, jacobian, first event, step, schedule); plus the two-source / chain families on the row scenes: both body "
+  "orders x every countdown difference (gap 1..9 / 10..12) x link kind {contact once, contact staying, equality, tendon}"
 )
 BOUNDS = {
-  "quick": "7 scenes dense (+stacked sparse), 7-8 events, 9 positions {0,5,8,9,10,12,16,20,26}, all placements of <=2 events, 46 steps; schedule family: 3 scenes x {desc, rot} on single-event traces",
+  "quick": "7 scenes dense (+stacked sparse), 7-8 events, 9 positions {0,5,8,9,10,12,16,20,26}, all placements of <=2 events, 46 steps; schedule family: 3 scenes x {desc, rot} on single-event traces; two-source family: 3 row scenes x 2 orders x gaps 1..9 (+chain 10..12, none) in history and {desc, rot} schedule form",
   "thorough": "8 scenes dense (+4 sparse), full alphabet (11-12 events), first event at every step 0..29, second event at every later step within 16 steps, 46 steps; schedule family on all scenes",
 }
 ASSUMPTIONS = [
@@ -58,7 +71,7 @@ ASSUMPTIONS = [
   "traces are batched as worlds of one Data (batch independence is C09's property)",
   "schedules: serial task orders of whole kernels only (CPU backend)",
 ]
-BUDGET = {"quick": 600, "thorough": 3500}
+BUDGET = {"quick": 900, "thorough": 3500}
 NSTEP = 46
 MINAWAKE = 10
 K_AWAKE = -(1 + MINAWAKE)
@@ -158,6 +171,14 @@ def alphabet(scene, tier):
 def scenarios(tier, seed):
   variant = seed % 4
   out = []
+  # two-source wake-ups: a sleeper reached in ONE step by an almost-asleep tree (contact) and a freshly woken tree
+  # (contact / equality / tendon), both body orders, every countdown difference; history family and schedule family
+  for sc in ROW_SCENES:
+    for jac in ("dense", "sparse") if (sc == "row" and tier == "thorough") else ("dense",):
+      out.append(dict(fam="twosrc", scene=sc, jac=jac, tier=tier, variant=variant))
+      out.append(dict(fam="chain", scene=sc, jac=jac, tier=tier, variant=variant))
+    for mode in ("desc", "rot"):
+      out.append(dict(fam="sched2", scene=sc, jac="dense", mode=mode, tier=tier, variant=variant))
   pos = QUICK_POS if tier == "quick" else tuple(range(30))
   scs = QUICK_SCENES if tier == "quick" else SCENES
   sparse = SPARSE_QUICK if tier == "quick" else SPARSE_THOROUGH
@@ -174,14 +195,6 @@ def scenarios(tier, seed):
     for mode in ("desc", "rot"):
       for e1 in alphabet(sc, tier):
         out.append(dict(fam="sched", scene=sc, jac="dense", e1=e1, mode=mode, tier=tier, variant=variant))
-  # two-source wake-ups: a sleeper reached in ONE step by an almost-asleep tree (contact) and a freshly woken tree
-  # (contact / equality / tendon), both body orders, every countdown difference; history family and schedule family
-  for sc in ROW_SCENES:
-    for jac in ("dense", "sparse") if (sc == "row" and tier == "thorough") else ("dense",):
-      out.append(dict(fam="twosrc", scene=sc, jac=jac, tier=tier, variant=variant))
-      out.append(dict(fam="chain", scene=sc, jac=jac, tier=tier, variant=variant))
-    for mode in ("desc", "rot"):
-      out.append(dict(fam="sched2", scene=sc, jac="dense", mode=mode, tier=tier, variant=variant))
   return out
 
 
@@ -726,6 +739,17 @@ def _lockstep(c, label, trace, sw, sc, boundary, counts):
   return True
 
 
+def _merge(c, cm):
+  """Monitor violations are collected separately so that they cannot crowd out the lock-step / schedule ones (cap 12 each)."""
+  seen = set()
+  for v in cm.violations:  # at most 3 per monitor key
+    n = sum(1 for x in seen if x[0] == v["vkey"])
+    if n < 3:
+      seen.add((v["vkey"], n))
+      c.violations.append(v)
+  c.nchecked += cm.nchecked
+
+
 def execute(scn):
   import mujoco_warp as mjw
 
@@ -751,7 +775,7 @@ def execute(scn):
       return dict(ok=True, nontrivial=False, outcome="rejected_by_reference", info=str(e)[:120])
     return dict(ok=True, nontrivial=False, outcome="reference_accepts_teneq")
 
-  c = util.Cmp()
+  c, cm = util.Cmp(), util.Cmp()
   counts = dict(states=0, transitions=0, traces_validated_against_impl=0, lockstep_desync=0, lockstep_boundary=0, extra_evaluations=0)
   if fam in ("sched", "sched2"):
     tier = scn["tier"]
@@ -759,7 +783,7 @@ def execute(scn):
     traces = [[(t, scn["e1"])] for t in pos] if fam == "sched" else _traces2(scn["scene"])
     base, _, dbase = _run_w(scn, traces, monitor=False)
     hook = _SchedHook(scn["mode"])
-    got, mon, d = _run_w(scn, traces, hook=hook, monitor=True, c=c)
+    got, mon, d = _run_w(scn, traces, hook=hook, monitor=True, c=cm)
     labels = mon.labels
     for w in range(len(traces)):
       for k in range(NSTEP):
@@ -775,10 +799,11 @@ def execute(scn):
     c.close("final qpos under schedule", d.qpos.numpy(), dbase.qpos.numpy(), "solver", vkey=f"schedule:{scn['mode']}:qpos")
     counts.update(states=len(mon.states), transitions=NSTEP * len(traces), traces_validated_against_impl=0, extra_evaluations=2 * len(traces) - 1, scheduled_launches=hook.hits)
     nontrivial = mon.nsleep > 0 and mon.nwake > 0 and hook.hits > 0
+    _merge(c, cm)
     return c.result(nontrivial=nontrivial, key=util.sha(scn), counts=counts, info=dict(traces=len(traces), hits=hook.hits))
 
   traces = _traces2(scn["scene"], chain=fam == "chain") if fam in ("twosrc", "chain") else _traces(scn)
-  sw, mon, _ = _run_w(scn, traces, monitor=True, c=c)
+  sw, mon, _ = _run_w(scn, traces, monitor=True, c=cm)
   degenerate = 0
   for w, tr in enumerate(traces):
     sc, boundary, warn = _run_c(scn, tr)
@@ -789,4 +814,5 @@ def execute(scn):
       counts["traces_validated_against_impl"] += 1
   counts.update(states=len(mon.states), transitions=NSTEP * len(traces), extra_evaluations=len(traces) - 1, degenerate_reference=degenerate, iteration_limit_hits=mon.iter_hits)
   nontrivial = mon.nsleep > 0 and mon.nwake > 0
+  _merge(c, cm)
   return c.result(nontrivial=nontrivial, key=util.sha(scn), counts=counts, info=dict(traces=len(traces), fell_asleep=mon.nsleep, woke=mon.nwake, checked=c.nchecked))
